@@ -49,6 +49,15 @@ WITNESS_TESTS = {
     "file": "witness/c01_dealer_queue_overtake.rs", "props": ["C01"], "pairs_fn": ["DealerSocket::send_logical_message", "DealerSocket::try_send_sync"],
     "what": "DEALER (SNDHWM 4, SNDTIMEO 0) -> ROUTER (RCVHWM 1) over tcp, 60000 numbered 2 KiB messages against a receiver that drains in bursts: every accepted message arrives once, in send order",
   },
+  "c01_dealer_positive_sndtimeo_loss": {
+    "file": "witness/c01_dealer_positive_sndtimeo_loss.rs", "props": ["C01", "C14"], "pairs_fn": ["DealerSocket::send_logical_message", "DealerSocketOutgoingProcessor::run"],
+    "what": "DEALER (SNDHWM 1, SNDTIMEO 100 ms) against a ROUTER that does not read, 128 KiB messages: every send() that answered Ok arrives, once, in order; none is lost",
+  },
+  "c14_dealer_queue_wait_deadline": {
+    "file": "witness/c14_dealer_queue_wait_deadline.rs", "props": ["C14"], "pairs_fn": ["DealerSocket::queue_message_or_error"],
+    "append_to": "core/src/socket/dealer_socket.rs", "test_filter": "verif_sndtimeo_deadline_witness",
+    "what": "in-crate: queue at the high-water mark, SNDTIMEO 300 ms, the queue-activity notifier fired every 100 ms: the waiting send answers timeout after about 300 ms, not never",
+  },
   "c13_wait_for_connection_lost_wakeup": {
     "file": "witness/c13_wait_for_connection_lost_wakeup.rs", "props": ["C13"], "pairs_fn": ["LoadBalancer::wait_for_connection"],
     "append_to": "core/src/socket/patterns/load_balancer.rs", "test_filter": "verif_lost_wakeup_witness",
@@ -314,7 +323,7 @@ PROPS["C11"] = {
 }
 
 PROPS["C14"] = {
-  "units": ["iface", "route", "egress", "batch", "anon", "routerrecv", "flags", "dealerq"],
+  "units": ["iface", "route", "egress", "batch", "anon", "routerrecv", "flags", "dealerq", "dealertimeo"],
   "kani_quick": [], "kani_thorough": [],
   "claim": "Error mapping only, proved on the verbatim async functions of the session-backed connection interface (ScaConnectionIface): with SNDTIMEO = 0 a full pipe yields would-block at once and the batch is handed back unchanged; "
            "with SNDTIMEO = -1 send_multipart_owned never answers would-block or timeout (untimed wait); errors are only would-block / timeout / connection-closed; try_send_multipart_owned_sync and try_route_sync hand a refused batch back intact; "
@@ -324,7 +333,10 @@ PROPS["C14"] = {
            "ROUTER (unit routerrecv, ghost clock): RCVTIMEO = 0 arms no timer and never waits; timeout is answered only for a positive RCVTIMEO and not before first-clock-reading + RCVTIMEO; "
            "EVERY timer the receive loop arms expires at that one deadline however often the loop goes round (not unboundedly later); RCVTIMEO = -1 arms no timer. "
            "With SNDTIMEO = 0 and the pipe at the high-water mark every entry point of the session-backed interface (send_message, send_multipart, send_multipart_owned) fails at once with would-block (ghost oracle for the pipe's state). "
-           "DEALER's pending queue (unit dealerq, queueing step of queue_message_or_error as a region) never grows beyond SNDHWM and a full queue takes nothing. "
+           "DEALER's pending queue (unit dealerq, queueing step of queue_message_or_error as a region) never grows beyond SNDHWM and a full queue takes nothing; "
+           "the whole DealerSocket::queue_message_or_error (unit dealertimeo, ghost clock, interference at every acquisition of the queue lock): SNDTIMEO = 0 at the high-water mark answers would-block without arming a timer or waiting, "
+           "timeout is answered only for a positive SNDTIMEO and not before the interval, EVERY timer the call arms expires at the one deadline fixed from its first look at the clock however often it is woken, "
+           "SNDTIMEO = -1 arms no timer and never answers timeout or would-block; DEALER never reports Ok for a message that a failed routing attempt consumed (unit dealerq: only the caller's own message is ever queued). "
            "Two known findings are reported: send_message / send_multipart turn SNDTIMEO = -1 into a 30 s timed wait followed by would-block.",
   "level_note": "Elapsed-time accuracy (no earlier than / not unboundedly later: the ghost wait log records the duration handed to tokio::time::timeout, not wall time; for ROUTER the ghost clock bounds every armed timer by the one deadline), and 'buffering stays within HWM + a fixed allowance under any producer/consumer speeds' are runtime/schedule properties: not covered. "
                 "The pipe (fibre BoundedAsyncSender) and tokio::time::timeout enter as abstract stand-ins: try_send never waits and returns the refused item; a timed send either completes, fails, or elapses.",
